@@ -3,6 +3,7 @@ CONSTANTS
   Zones = {1, 2}
   FixLock = FALSE
   FixAck = FALSE
+  FixStale = FALSE
   ZlibDetects = TRUE
   MaxMain = 2
   MaxFaults = 2
